@@ -63,6 +63,7 @@ func c03Run(u *vfUnit) {
 			label += "/short-reads"
 		}
 		peer := &vfPeer{HoldK: K, Rng: r.Fork(), Handler: model.handler,
+			VersionFrame: vfPkt{Type: rfVersion, Version: 3, Exts: [][2]string{{"fsync@openssh.com", "1"}}}.Frame(),
 			OnRequest: func(req vfPkt, raw []byte, perr error) {
 				model.mu.Lock()
 				defer model.mu.Unlock()
@@ -130,7 +131,7 @@ func c03Run(u *vfUnit) {
 				for it := 0; it < perG; it++ {
 					n := uint64(g)*100000 + uint64(it)*13 + uint64(rr.Intn(7))
 					calls.Add(1)
-					switch op := rr.Intn(15); op {
+					switch op := rr.Intn(16); op {
 					case 12: // a call abandoned through its context while its request is outstanding
 						ctx, cancel := context.WithCancel(context.Background())
 						cdone := make(chan struct{})
@@ -221,6 +222,13 @@ func c03Run(u *vfUnit) {
 							}
 						} else if err == nil || !strings.Contains(err.Error(), fmt.Sprintf("wr-%d", wantFail)) {
 							report("WriteAt", fmt.Sprintf("WriteAt(file %d, off %d, len %d) = (%d, %v), want the error of the chunk at %d", fn, off, l, nn, err, wantFail))
+						}
+					case 15: // File.Sync on a shared file (the peer advertises the extension): a request like any other, with an id of its own
+						if len(shared) == 0 {
+							continue
+						}
+						if err := shared[rr.Intn(len(shared))].Sync(); err != nil {
+							report("File.Sync", fmt.Sprintf("Sync of a shared file = %v", err))
 						}
 					case 10: // File.Stat on a shared file
 						if len(shared) == 0 {
